@@ -72,6 +72,8 @@ EnumLeaves == <<
   D("E-one", TEnum(<<EItem("a", 0)>>, FALSE, <<>>)),
   D("E-ext0", TEnum(<<EItem("a", 0), EItem("b", 1)>>, TRUE, <<>>)),
   D("E-ext2", TEnum(<<EItem("a", 0), EItem("b", 1)>>, TRUE, <<EItem("c", 2), EItem("d", 3)>>)),
+  \* names longer than the 64-octet scratch buffers of the formatted-output helpers
+  D("E-long", TEnum(<<EItem("a-very-long-enumeration-item-name-that-does-not-fit-a-small-scratch-buffer-one", 0), EItem("another-quite-long-enumeration-item-name-for-the-formatted-output-path-two", 1), EItem("z", 2)>>, FALSE, <<>>)),
   D("E-big", TEnum(<<EItem("a", -32769), EItem("b", 128), EItem("c", 2147483647)>>, FALSE, <<>>)) >>
 
 StrLeaves == <<
@@ -313,6 +315,8 @@ ConstraintDefs == <<
   D("C-pow2p", TInt(CUnion(R(0, 0), CVal(BI(256))))),
   D("C-u16-union", TInt(CUnion(R(0, 10), CVal(BI(65535))))),
   D("C-u16p-union", TInt(CUnion(R(0, 10), CVal(BI(65536))))),
+  D("C-u32-union", TInt(CUnion(R(0, 3600), CVal(BV(UInt32Max))))),              \* a gap between 0 and 2^32 - 1
+  D("C-gap-minmax", TInt(CUnion(CRange(BMin, BV(INeg(IOfInt(5)))), CRange(BV(IOfInt(5)), BMax)))),   \* MIN..-5 | 5..MAX
   D("C-size-union", TOctets(CUnion(R(1, 2), CVal(BI(4))))),
   D("C-size-inter", TOctets(CInter(R(0, 10), R(2, 3)))),
   D("C-size-serial", TStr("IA5", CSerial(R(0, 10), R(2, 3)), <<>>)),
